@@ -131,12 +131,12 @@ UNIT = dict(
                          (r"player_two_strategy: two\.into\(\),", "player_two_strategy: __to_strategy(two),", "R5 idem")],
              entry="broadcast use fl; broadcast use ideal;\nproof { ax_obeys(); ax_rv_lits(); }"),
         dict(file="src/main.rs", path="impl From for Strategy / fn from", closure=0, expr_closure=True,
-             header_re=r"^\|\(_, p\)\|$", as_fn="strategy_from__printed_action", generics="<N: Borrow<f64>>",
-             params="p: &N", ret="out", ret_type="bool",
+             header_re=r"^\|\(_\w*, (\w+)\)\|$", as_fn="strategy_from__printed_action", generics="<N: Borrow<f64>>",
+             params="$1: &N", ret="out", ret_type="bool",
              obligation="C15.V.output.zero_probability_actions_omitted", rules=[],
              entry="broadcast use fl;\nproof { ax_obeys(); }",
              contract="""ensures
     // an action is printed exactly when its probability is positive
-    out == fgt(p.bview(), 0.0f64), // @ob C15.V.output.zero_probability_actions_omitted"""),
+    out == fgt($1.bview(), 0.0f64), // @ob C15.V.output.zero_probability_actions_omitted"""),
     ],
 )
